@@ -165,3 +165,7 @@ def trusted_base(prop):
 def assumptions(prop):
     return ["operands of | and & are Signal objects (None/True/False/DONE/NEVER identities are checked on the real operators by a monitor)",
             "objects are reclaimed by reference counting only"]
+
+
+for _k in list(RULE):      # RULE-EXTRA: what was added to the exploration after the rounds of seeded changes
+    RULE[_k] += '; plus: the whole M1 exploration incl. hostile Signal programs as a LAYER (atomicity of then/go/wait/remove_then), an operand table of | and & over every kind of operand, line-mode jobs'
